@@ -244,4 +244,22 @@ def wallinfo(eq, mesh, spec):
     return out
 
 
-EXTRACTORS = {"wallinfo": wallinfo, "perp": perp, "onsurface": onsurface, "contours": contours, "profiles": profiles, "fieldpts": fieldpts, "beta": beta, "bpsign": bpsign, "eqinfo": eqinfo, "regions": regions, "meshmeta": meshmeta}
+def stencil(eq, mesh, spec):
+    """per region: psi_vals, dx (centre, x-faces), dphidy and ShiftTorsion at centre and x-faces, and the neighbouring centre values
+    across the inner / outer region boundaries — what geometry1's dx and DDX('#dphidy') read and produce"""
+    out = {}
+    for rid, r in mesh.regions.items():
+        inner, outer = r.getNeighbour("inner"), r.getNeighbour("outer")
+        out[rid] = {
+            "name": r.name, "psi_vals": np.array(r.psi_vals, dtype=float),
+            "dx_centre": np.array(r.dx.centre), "dx_xlow": np.array(r.dx.xlow),
+            "f_centre": np.array(r.dphidy.centre), "f_xlow": np.array(r.dphidy.xlow),
+            "ddx_centre": np.array(r.ShiftTorsion.centre), "ddx_xlow": np.array(r.ShiftTorsion.xlow),
+            "inner_psi": float(inner.psi_vals[-2]) if inner is not None else None, "outer_psi": float(outer.psi_vals[1]) if outer is not None else None,
+            "inner_f": np.array(inner.dphidy.centre[-1, :]) if inner is not None else None,
+            "outer_f": np.array(outer.dphidy.centre[0, :]) if outer is not None else None,
+        }
+    return out
+
+
+EXTRACTORS = {"stencil": stencil, "wallinfo": wallinfo, "perp": perp, "onsurface": onsurface, "contours": contours, "profiles": profiles, "fieldpts": fieldpts, "beta": beta, "bpsign": bpsign, "eqinfo": eqinfo, "regions": regions, "meshmeta": meshmeta}
